@@ -480,6 +480,50 @@ def overlap_c12(rng, tag, n):
     return out
 
 
+def c19_ref_scenarios(rng, tag, n):
+    """clients of two scopes with different shared secrets: requests obfuscated with the scope's own key, with the OTHER
+    scope's key, and with a key nobody configured (the client key is explicit: `ckey`)"""
+    out = []
+    keys = {"s1": "key-of-scope-one", "s2": "key-of-scope-two"}
+    people = {"s1": ["alice", "bob", "frank", "carol"], "s2": ["erin", "frank", "alice"]}
+    for i in range(n):
+        cfg = base_cfg(rng, tag)
+        if rng.random() < 0.4:
+            cfg["secrets"] = list(reversed(cfg["secrets"]))         # the prefixes are disjoint: the order must not matter
+        conns, steps = [], []
+        for c in range(1, rng.randint(2, 4) + 1):
+            scope = rng.choice(["s1", "s1", "s2"])
+            conns.append({"c": c, "addr": rng.choice(ADDR[scope])})
+            other = keys["s2" if scope == "s1" else "s1"]
+
+            def script():
+                u = rng.choice(people[scope])
+                pw = pw_of(cfg, scope, u) or "wrong-" + tag
+                k = rng.random()
+                if k < 0.35:
+                    return pap_login(u, pw)
+                if k < 0.55:
+                    return ascii_login(u, pw, user_in_start=rng.random() < 0.5)
+                if k < 0.8:
+                    return [(author(u, [list(b"service=shell"), list(b"cmd=show"), list(b"cmd-arg=version")]), 0, [])]
+                return [(acct(u, rng.choice([2, 4, 8]), [list(b"task_id=%d" % rng.randint(1, 99))]), 0, [])]
+            mode = rng.choice(["right", "right", "right", "other", "other", "random"])
+            ck = {"right": keys[scope], "other": other, "random": "zz-" + tag}[mode]
+            ss = session_steps(c, rng.randint(0, 3), script(), fl=rng.choice([0, 0, 4]))
+            if mode != "right":
+                ss = ss[:1]
+            for st in ss:
+                st["ckey"] = ck
+            steps += ss
+            if mode == "right" and rng.random() < 0.4:
+                # then a request under the other scope's key on the same, so far healthy, connection
+                s2 = session_steps(c, (ss[0]["sid"] + 1) % 4, script(), fl=0)[:1]
+                s2[0]["ckey"] = other
+                steps += s2
+        out.append({"id": "c19ref-%d" % i, "cfg": cfg, "conns": conns, "steps": steps, "iso": False, "log": False})
+    return out
+
+
 def exhaustive_c09(rng, tag, limit):
     """all interleavings of small script pairs/triples on one connection"""
     cfg = base_cfg(rng, tag)
@@ -541,7 +585,10 @@ def collect(ctx, prop):
     tag = "%x" % rng.getrandbits(24)
     n = {"C09": (250, 5000), "C10": (900, 20000), "C12": (700, 15000), "C18": (600, 12000), "C07": (800, 15000),
          "C11": (900, 20000), "C14": (800, 20000), "C13": (500, 10000)}.get(prop, (600, 10000))[0 if quick else 1]
-    scen = [scenario(rng, i, prop, tag) for i in range(n)]
+    if prop == "C19":
+        scen = c19_ref_scenarios(rng, tag, 300 if quick else 6000)
+    else:
+        scen = [scenario(rng, i, prop, tag) for i in range(n)]
     if prop == "C09":
         scen += exhaustive_c09(rng, tag, 300 if quick else 6000)
         scen += overlap_c09(rng, tag, 150 if quick else 3000)
